@@ -270,6 +270,9 @@ func (s *Spec) Step(ctx context.Context, st *State, pending interface{}, c *Cont
 	stride.From = st.Copy()
 
 	if haveAction {
+		// Gather the permanent bindings before the action runs: a
+		// native action can edit the bindings it is given in place.
+		permanent := permanentBindings(bs)
 		e, err = n.Action.Exec(ctx, bs, props)
 		if e != nil {
 			stride.AddEvents(e.Events)
@@ -287,6 +290,9 @@ func (s *Spec) Step(ctx context.Context, st *State, pending interface{}, c *Cont
 						}
 					}
 				}
+				for p, v := range permanent {
+					e.Bs[p] = v
+				}
 			}
 		}
 
@@ -297,6 +303,9 @@ func (s *Spec) Step(ctx context.Context, st *State, pending interface{}, c *Cont
 			// Extend a copy: at this point bs is still the
 			// caller's st.Bs (which can also be nil).
 			bs = bs.Copy()
+			for p, v := range permanent {
+				bs[p] = v
+			}
 			bs.Extend("actionError", err.Error())
 			bs.Extend("error", err.Error())
 			if !s.ActionErrorBranches {
@@ -505,7 +514,18 @@ func (b *Branch) try(ctx context.Context, bs Bindings, against interface{}, prop
 				"guardingWith": candidate,
 			})
 
+			permanent := permanentBindings(candidate)
+
 			exe, err := b.Guard.Exec(ctx, candidate, props)
+
+			if err != nil || exe == nil || exe.Bs == nil {
+				// A failing or rejecting guard leaves the
+				// permanent bindings in place, even a native
+				// one that edited the bindings it was given.
+				for p, v := range permanent {
+					candidate[p] = v
+				}
+			}
 
 			if exe != nil {
 				ts.Add(exe.Events.Traces.Messages...)
